@@ -408,6 +408,8 @@ func genCase(r *c.Rng, mode string) *Case {
 		return genE2E(r)
 	case "acme":
 		return genACME(r)
+	case "api":
+		return genAPI(r)
 	}
 	switch r.Intn(10) {
 	case 0:
@@ -431,6 +433,8 @@ func corner(mode string) []*Case {
 		return cornerE2E()
 	case "acme":
 		return cornerACME()
+	case "api":
+		return cornerAPI()
 	}
 	var out []*Case
 	// D6: vb − va = 18446744374 s under max 24 h is accepted (user cert, default claims, backdate 1 m)
